@@ -252,3 +252,91 @@ Definition enqueue (st : fstate) (id blocks : N) : fstate :=
   mkfst (f_fs st) (f_queue st ++ [mkpe id blocks None false false]) (f_durable st) (f_usage st) (f_poison st) (f_calls st) (f_maydata st).
 
 Definition finit (f : fs) : fstate := mkfst f [] [] 0 false 0 [].
+
+(* ---- deletes of published records and their retirement (flush_pending_deletions /
+   process_deletions for entries that have no readers and no undurable successor) ---- *)
+Record rstate := mkrs {
+  r_core : fstate;
+  r_pending : list (N * (N * N))      (* retirement_queue.pending: id -> (sector, blocks) *)
+}.
+
+Fixpoint take_durable (id : N) (l : list (N * (N * N))) : option (N * N) * list (N * (N * N)) :=
+  match l with
+  | [] => (None, [])
+  | (i, x) :: t => if i =? id then (Some x, t) else let (r, t') := take_durable id t in (r, (i, x) :: t')
+  end.
+
+Definition set_durable (st : fstate) (d : list (N * (N * N))) : fstate :=
+  mkfst (f_fs st) (f_queue st) d (f_usage st) (f_poison st) (f_calls st) (f_maydata st).
+
+(* FeoxStore::delete of a key whose record is published: the record leaves the index, its extent
+   waits in the retirement queue *)
+Definition rdelete (rs : rstate) (id : N) : rstate :=
+  match take_durable id (f_durable (r_core rs)) with
+  | (Some x, d') => mkrs (set_durable (r_core rs) d') (r_pending rs ++ [(id, x)])
+  | (None, _) => rs
+  end.
+
+Definition renqueue (rs : rstate) (id blocks : N) : rstate := mkrs (enqueue (r_core rs) id blocks) (r_pending rs).
+
+Section RetOracle.
+Variable fault : N -> bool.
+
+(* retire_extents on the pending extents (journal intent, markers, clear), then one release per
+   group of adjacent extents *)
+Definition retire_pending (rs : rstate) : rstate * fres :=
+  match r_pending rs with
+  | [] => (rs, ROk)
+  | p =>
+      let st := r_core rs in
+      if f_poison st then (rs, RIndet)
+      else match coalesce (sort_exts (map snd p)) with
+           | None => (mkrs (set_poison st) p, RIndet)
+           | Some groups =>
+               let (ok, st1) := scrub_calls fault groups st in
+               if negb ok then (mkrs (set_poison st1) p, RIndet)
+               else let '(f', u', all_ok) := release_groups (f_fs st1) (f_usage st1) groups in
+                    let st2 := mkfst f' (f_queue st1) (f_durable st1) u' (f_poison st1) (f_calls st1) (f_maydata st1) in
+                    if all_ok then (mkrs st2 [], ROk) else (mkrs st2 p, RIo)
+           end
+  end.
+
+(* the tail of a flush whose worker pass succeeded: retirements, then the metadata block *)
+Definition rfinish (st1 : fstate) (pending : list (N * (N * N))) : rstate * fres :=
+  let (rs2, r2) := retire_pending (mkrs st1 pending) in
+  match r2 with
+  | ROk =>
+      if f_poison (r_core rs2) then (rs2, RIndet)
+      else let (ok, st3) := write_and_sync fault (r_core rs2) in (mkrs st3 (r_pending rs2), if ok then ROk else RIo)
+  | _ => (rs2, r2)
+  end.
+
+(* FeoxStore::flush with deletions pending: the worker's pass; when the allocator refused, the
+   worker first runs the pending retirements and, if they gave space back, the pass is repeated
+   (flush_worker_shards: OutOfSpace -> flush_pending_deletions -> Ok(true)); then the retirements
+   and the metadata block *)
+Definition rflush (rs : rstate) : rstate * fres :=
+  let (st1, r) := attempt fault (r_core rs) in
+  match r with
+  | ROk => rfinish st1 (r_pending rs)
+  | RSpace =>
+      match r_pending rs with
+      | [] => (mkrs st1 [], RSpace)
+      | p =>
+          let (rs2, r2) := retire_pending (mkrs st1 p) in
+          match r2 with
+          | ROk =>
+              let (st3, r3) := attempt fault (r_core rs2) in
+              match r3 with
+              | ROk => rfinish st3 (r_pending rs2)
+              | _ => (mkrs st3 (r_pending rs2), r3)
+              end
+          | _ => (rs2, r2)
+          end
+      end
+  | _ => (mkrs st1 (r_pending rs), r)
+  end.
+
+End RetOracle.
+
+Definition rinit (f : fs) : rstate := mkrs (finit f) [].
